@@ -391,7 +391,7 @@ func fillBody(body string, names []string, leaf string) string {
 // AliasSystem: the recipes around one twin pair of systems: the system T, U(, V) with the first leaf and O, P(, R) with
 // the second. Left-hand forms: aliases `F[Variant[X, Any], Y]` / `F[Variant[Any, X], Y]` over all X, Y of the first system
 // (the alternative makes the query go on after X has been compared and rejected) and the plain types; right-hand
-// forms: `F[X', Y']` and `F[X', <Y' written out>]` over all X', Y' of the second; F = a Tuple / a Struct.
+// forms: `F[X', Y']` and `F[X', <Y' written out>]` over all X', Y' of the second; F = a Tuple / a Struct (references wrapped in Arrays).
 func AliasSystem(sh aliasShape, leaves [2]string) []*Spec {
 	ln, rn := []string{"T", "U", "V"}[:len(sh.bodies)], []string{"O", "P", "R"}[:len(sh.bodies)]
 	var decls []string
